@@ -19,8 +19,8 @@ CFG = {
     "C03": {"props": ["C03", "C03Num"], "profiles": [("control", 0.8), ("int", 0.2)],
             "quick": (2000, 480), "thorough": (20000, 3000), "per_func": 3, "sim": {"quick": 240, "thorough": 1600},
             "opt": {"quick": 8, "thorough": 120}, "what": "control flow / operand stack / locals"},
-    "C04": {"props": ["C04", "C04Mangle", "C04Ident", "C04Tables", "C04Child", "C03Num"],
-            "gens": [("InitTables", "gen_inittables"), ("Instantiate", "gen_instantiate")],
+    "C04": {"props": ["C04", "C04Mangle", "C04Ident", "C04Members", "C04Tables", "C04Child", "C03Num"],
+            "gens": [("InitTables", "gen_inittables"), ("Instantiate", "gen_instantiate"), ("Members", "gen_members")],
             "tables_text": {"quick": 150, "thorough": 3000}, "family": {"quick": 40, "thorough": 800}, "profiles": [("calls", 0.85), ("init", 0.15)],
             "quick": (1500, 400), "thorough": (12000, 3000), "per_func": 4, "sim": {"quick": 300, "thorough": 1600},
             "opt": {"quick": 28, "thorough": 400}, "what": "direct / indirect / recursive / imported calls"},
